@@ -98,6 +98,13 @@ func opIDs1(ops []b1.IOperation) []int64 {
 	return ids
 }
 
+// busy: the listener takes its time (user code runs inside emit, in the processing loop's goroutine)
+func (r *v1run) busy(d int64) {
+	if d > 0 {
+		time.Sleep(time.Duration(d))
+	}
+}
+
 func (r *v1run) listener(event string, val int, msg string, metadata interface{}) {
 	switch event {
 	case b1.BatchEvent:
@@ -119,11 +126,14 @@ func (r *v1run) listener(event string, val int, msg string, metadata interface{}
 		r.log.Logf("L", "shutdown")
 	case b1.AuditSkipEvent:
 		r.log.Logf("L", "auditskip")
+		r.busy(r.sc.BusyAudit)
 	case b1.AuditPassEvent:
 		r.log.Logf("L", "auditpass")
+		r.busy(r.sc.BusyAudit)
 	case b1.AuditFailEvent:
 		tb, ib := 1, 0
 		r.log.Logf("L", "auditfail %d %d", tb, ib)
+		r.busy(r.sc.BusyAudit)
 	case b1.RequestEvent:
 		r.log.Logf("L", "request %d", val)
 	default:
